@@ -30,6 +30,10 @@ CHECKS = {
             "Decides: wait-group Add/Done pairing around each helper goroutine, closing of every output on every path after the input is drained (covering traversal from Start), distribution shape (every output / exactly the next output / next input with wrap check). Conservation and order over schedules are not decided.",
             "go/types, go/cfg of x/tools v0.29.0",
             "DESIGN.md 5/C06"),
+    "C09": ("static analysis: loop-progress forms (PATH), octagon/Fourier-Motzkin abstract interpretation of the merge step under the invariant merged=left+right and of the driver's slice bounds and block tiling (SYM), provenance of element stores, delegation tables",
+            "Decides: termination of every sorter loop for every ranker; no invented values; the collections sort their live backing array with the caller's ranker; the merge step is canonical (lesser head taken, cursors consistent, in bounds); the driver merges adjacent, tiling runs between two ping-pong arrays within 0<=left<=middle<=right<=length on all integers; reverse swaps i with len-1-i up to len/2; shuffle only swaps. The global induction over passes is not mechanised.",
+            "go/types, go/cfg of x/tools v0.29.0; canonical merge-sort step spec in checker/c09.go",
+            "DESIGN.md 5/C09"),
     "C13": ("static analysis: octagon abstract interpretation of the stack guards and of the capacity given at construction (SYM), call-site tables for the single mutation gate and the stack end",
             "Decides: no constructor builds a stack whose capacity is below its initial size (all integers), AddValue/RemoveTop guard exactly the full/empty states before touching storage, one end (slot 0 / index 1), views delegate, storage mutated only through the three gates. LIFO over histories is not decided.",
             "go/types of x/tools v0.29.0; spec tables in checker/c13.go; relies on the list's own correctness (C01)",
